@@ -737,9 +737,83 @@ fn c15_ranged(r: &mut Rng, cnt: &mut Counters, tr: &mut Option<std::fs::File>) {
     }
 }
 
+/// Automatic fractions (digits U+2044 digits) on a generated font with numr / dnom / frac, with grapheme continuations
+/// (combining mark, ZWJ, variation selector) behind digits and the slash: which glyphs get the fraction features is
+/// decided per glyph, so neither the cluster level nor the numbering may change the result.
+fn c15_fraction(r: &mut Rng, cnt: &mut Counters, tr: &mut Option<std::fs::File>) {
+    use crate::fontgen::*;
+    let mut spec = FontSpec::basic(50);
+    // glyphs 1..10 digits, 11 slash, 12 mark, 13 x, 14 space, 15 zwj; numr +15, dnom +25 on the digits, frac: slash -> 48
+    let mut cmap: Vec<(u32, u16)> = (0..10u32).map(|d| (0x30 + d, 1 + d as u16)).collect();
+    cmap.extend([(0x2044, 11), (0x0301, 12), (0x78, 13), (0x20, 14), (0x200D, 15), (0x0661, 2), (0x0662, 3)]);
+    cmap.sort();
+    spec.cmap = cmap;
+    let digits: Vec<u16> = (1..=10).collect();
+    let numr = Lookup::one(SubstSubtable::Single1 { coverage: Coverage::Glyphs(digits.clone()), delta: 15 });
+    let dnom = Lookup::one(SubstSubtable::Single1 { coverage: Coverage::Glyphs(digits.clone()), delta: 25 });
+    let frac = Lookup::one(SubstSubtable::Single2 { coverage: Coverage::Glyphs(vec![11]), substitutes: vec![48] });
+    spec.gsub = Some(Layout::with_features(vec![(*b"dnom", vec![1]), (*b"frac", vec![2]), (*b"numr", vec![0])], vec![numr, dnom, frac]));
+    let data = build(&spec);
+    let mut path = "generated:fraction".to_string();
+    if let Ok(dir) = std::env::var("RBV_DUMP_DIR") {
+        let p = format!("{}/generated-fraction.ttf", dir);
+        let _ = std::fs::create_dir_all(&dir);
+        if std::fs::write(&p, &data).is_ok() {
+            path = p;
+        }
+    }
+    let chars: Vec<u32> = spec.cmap.iter().map(|x| x.0).collect();
+    let fi = FontInfo { path, data, chars, has_layout: true, has_morx: false, has_kern: false, scripts: vec![] };
+    for j in 0..160u32 {
+        let mut t: Vec<u32> = Vec::new();
+        let cont = |r: &mut Rng, t: &mut Vec<u32>| {
+            match r.below(6) {
+                0 | 1 => t.push(0x0301),
+                2 => t.push(0x200D),
+                3 => {
+                    t.push(0x0301);
+                    t.push(0x0301);
+                }
+                _ => {}
+            }
+        };
+        if r.chance(1, 3) {
+            t.push(0x78);
+            t.push(0x20);
+        }
+        for _ in 0..r.range(1, 3) {
+            t.push(0x30 + r.below(10) as u32);
+        }
+        if r.chance(1, 4) {
+            cont(r, &mut t);
+        }
+        t.push(0x2044);
+        if r.chance(1, 4) {
+            cont(r, &mut t);
+        }
+        for _ in 0..r.range(1, 3) {
+            t.push(0x30 + r.below(10) as u32);
+        }
+        cont(r, &mut t);
+        if r.chance(1, 3) {
+            t.push(0x20);
+            t.push(0x78);
+        }
+        let cl = gen_clusters(r, t.len());
+        let req = Req { text: t.into_iter().zip(cl.into_iter()).collect(), dir: if j % 4 == 3 { Some(Direction::RightToLeft) } else { Some(Direction::LeftToRight) }, script: Some("Latn".to_string()), flags: 3, level: (j % 3) as u8, ..Default::default() };
+        trace(tr, &format!("fraction {} [{}]", fi.path, fmt_req(&req)));
+        let before = cnt.evals;
+        check_c15(&fi, &req, r, cnt);
+        if cnt.evals > before {
+            cnt.bump("fraction_cases");
+        }
+    }
+}
+
 fn c15(r: &mut Rng, fonts: &[FontInfo], n: u64, tr: &mut Option<std::fs::File>) {
     let mut cnt = Counters::default();
     c15_ranged(r, &mut cnt, tr);
+    c15_fraction(r, &mut cnt, tr);
     // dedicated pass: every (font, script it maps) pair, texts over the script's alphabet incl. ill-formed
     // sequences (the shapers' text preprocessing must not depend on the cluster level or numbering)
     for fi in fonts.iter() {
